@@ -31,9 +31,25 @@ RULE = ("(1) value tables: Nodes.typed_value on every text of length <= 3 over a
         "set_value as a float object, as numeric text in DEFAULT format and as text with value_format=FLOAT, at exact paths and "
         "generated paths of seeded documents (anchored targets with aliases included): in memory the matched scalars and their "
         "aliases hold exactly that number and nothing else changed; after dump + strict reload the reloaded number == the "
-        "written number.  "
-        "Sizes: quick 12 000 documents x 3 edits, 2 500 histories, 1 200 merge-key documents; thorough 150 000 documents x 3 "
-        "edits, 40 000 histories, 12 000 merge-key documents (trimmed from 200 000 / 20 000 to keep the thorough tier under "
+        "written number; "
+        "(6) real code only, documents LOADED FROM YAML TEXT holding long scalars in every style (plain, single / double quoted "
+        "with escapes, literal and folded block scalars with all chomping indicators, ordinary lines and more-indented lines "
+        "longer than 80 columns, blank lines; long keys; long flow sequences / mappings; block sequences of them; anchored long "
+        "scalars with aliases) next to short scalars x a set at up to 3 SHORT scalars (short values and one > 80 columns): the "
+        "physical document is as before except the target (string contents compared character by character), and the dump "
+        "with the tool's editor + strict reload gives the same data - judged for EVERY edited document, no 'the unedited "
+        "document round-trips' filter; "
+        "(7) real code only, documents loaded from YAML text with date and timestamp nodes (yyyy-mm-dd; timestamps with T / t / "
+        "space separator, fractions, no zone / Z / +hh:mm / -hh:mm / +hh; anchored and aliased under keys and in lists) next to "
+        "strings and ints x a set at up to 6 scalars (anchored dates first) x new value in {datetime.date, naive and aware "
+        "datetime.datetime, a copy of a date / offset-less timestamp node of the same text loaded a second time, date text, "
+        "timestamp text, other text} x format in {DEFAULT, DATE, TIMESTAMP}: the rest of the document is as before; for the "
+        "judged mixes (date object or node / DEFAULT, DATE; datetime object or node / DEFAULT, TIMESTAMP; date text / DATE; "
+        "timestamp text / TIMESTAMP; any text / DEFAULT = that text) the set is not refused and the target and every scalar "
+        "carrying its anchor denote the new value in the same type family (a date stays a date, a timestamp keeps local time "
+        "and UTC offset; independent reading dt_den / dt_parse), anchor kept; dump + strict reload denotes the same.  "
+        "Sizes: quick 12 000 documents x 3 edits, 2 500 histories, 1 200 merge-key documents, 700 long-scalar and 900 date documents; thorough 150 000 documents x 3 "
+        "edits, 40 000 histories, 12 000 merge-key documents, 8 000 long-scalar and 10 000 date documents (trimmed from 200 000 / 20 000 to keep the thorough tier under "
         "~20 min on a loaded 16-core machine; the value tables of (1) stay exhaustive in both tiers; all histories of one "
         "worker job go to the model in one driver call).  "
         "distinct_nontrivial = distinct single edits that changed >= 1 node + distinct histories with >= 2 effective steps.")
@@ -114,6 +130,12 @@ def run(chk: core.Check):
         fcases = gen_float_cases(rng, 4500 if quick else 60000)
         chk.extra_cov["float_magnitude_cases"] = len(fcases)
         cases += fcases
+        lcases = gen_long_cases(rng, 700 if quick else 8000)
+        chk.extra_cov["long_scalar_document_cases"] = len(lcases)
+        cases += lcases
+        dcases = gen_date_cases(rng, 900 if quick else 10000)
+        chk.extra_cov["date_timestamp_document_cases"] = len(dcases)
+        cases += dcases
         rng.shuffle(cases)
         chunks = core.chunked(cases, 64)
     results = core.pmap(_job, chunks)
@@ -314,14 +336,15 @@ def mk_load(text):
     return data if ok else None
 
 
-def mk_phys(root, anchors=True, ids_out=None):
+def mk_phys(root, anchors=True, ids_out=None, scalar=None, styles_out=None):
     """The physical document as a table of containers (numbered in first-visit order; a shared container appears once):
     mapping = own keys in order with their values + merge references + anchor, sequence = items + anchor;
     scalars inline as [canonical value, anchor]."""
     from ruamel.yaml.comments import CommentedMap, CommentedSeq
     ids, out = {}, []
+    enc = scalar or codec.scalar_to_json
 
-    def visit(n):
+    def visit(n, slot=None):
         if isinstance(n, (CommentedMap, CommentedSeq)):
             if id(n) in ids:
                 return ["ref", ids[id(n)]]
@@ -329,14 +352,17 @@ def mk_phys(root, anchors=True, ids_out=None):
             out.append(None)
             if isinstance(n, CommentedMap):
                 merges = [visit(m[1]) for m in getattr(n, "merge", [])]
-                own = [[codec.key_to_json(k), visit(v)] for k, v in n.non_merged_items()]
+                own = [[codec.key_to_json(k), visit(v, (i, "own", pi))] for pi, (k, v) in enumerate(n.non_merged_items())]
                 out[i] = {"t": "map", "anchor": codec.anchor_of(n) if anchors else None, "merge": merges, "own": own}
             else:
-                out[i] = {"t": "seq", "anchor": codec.anchor_of(n) if anchors else None, "items": [visit(v) for v in n]}
+                out[i] = {"t": "seq", "anchor": codec.anchor_of(n) if anchors else None,
+                          "items": [visit(v, (i, "items", pi)) for pi, v in enumerate(n)]}
             return ["ref", i]
         if isinstance(n, (dict, list, set)):
             raise codec.OutOfModel("plain container")
-        return ["s", codec.scalar_to_json(n), codec.anchor_of(n) if anchors else None]
+        if styles_out is not None and slot is not None:
+            styles_out[slot] = type(n).__name__
+        return ["s", enc(n), codec.anchor_of(n) if anchors else None]
     visit(root)
     if ids_out is not None:
         ids_out.update(ids)
@@ -513,6 +539,509 @@ def mk_roundtrip(data):
     except codec.OutOfModel:
         return "ok"
     return "ok" if same else "data-differs\n" + buf.getvalue()
+
+
+# --------------------------------------------------------------------------- documents loaded from YAML text (real code only)
+#
+# Two more classes of documents that only exist when YAML TEXT is loaded (the Lean model and `codec.json_to_ruamel`
+# know neither scalar styles nor dates):
+#   "long"  - long scalars in every style (plain, single / double quoted, literal `|`, folded `>` with ordinary lines and
+#             more-indented lines longer than 80 columns, long keys, long flow sequences / mappings, block sequences of
+#             them, anchored long scalars with aliases) next to short scalars; a set at a SHORT scalar;
+#   "date"  - date and timestamp nodes (`2019-06-30`, `2001-12-14t21:59:43.10-05:00`, `... Z`, naive; anchored and
+#             aliased under keys and in lists) next to strings and ints; a set at any scalar, the new value being a date /
+#             datetime object, a copy of a date / timestamp node of the same text loaded a second time, date-like text,
+#             an ordinary string / int, with value_format DEFAULT / DATE / TIMESTAMP.
+# Judged like the merge-key documents on the physical document (`mk_phys`): everything but the matched scalar and the
+# scalars carrying its anchor is exactly as before (string contents compared character by character); the targets hold
+# the new value (dates: same Python type family - a date stays a date, a timestamp a timestamp with its UTC offset) under
+# the old anchor; the dump with the tool's editor reloads with its strict loader to the same data.  NO "the unedited
+# document round-trips" pre-filter here: the property promises the reload for every edited document.
+
+LS_WORDS = ["alpha", "beta", "gamma", "delta", "exporter", "--source", "/srv/data/incoming", "--target", "/srv/data/outgoing",
+            "--mode", "incremental", "--verbose", "the", "and", "then", "check", "log", "x=1", "value", "a", "of", "configuration",
+            "https://example.org/p?q=1", "50%", "(note)", "it's", "end.", "run", "like", "so", "1", "22", "true", "null", "~", "é"]
+LS_FLOW_WORDS = ["alpha", "beta", "gamma", "delta", "exporter", "incremental", "configuration", "value", "1", "22", "true", "x=1",
+                 "/srv/data/incoming", "long text here"]
+LS_STYLES = ["plain", "sq", "dq", "lit", "fold", "fold", "fold", "longkey", "flowseq", "flowmap", "blockseq"]
+LS_VALUES = MK_VALUES + [("str", "a new value that is itself a good deal longer than eighty columns so that an emitter with a "
+                                 "narrow line width has to wrap it somewhere in the middle")]
+
+
+def ls_line(rng, lo, hi):
+    """Words joined by single spaces, total length about lo..hi, first word alphabetic."""
+    want = rng.randint(lo, hi)
+    out = rng.choice(["alpha", "beta", "the", "run", "exporter", "value"])
+    while len(out) < want:
+        out += " " + rng.choice(LS_WORDS)
+    return out
+
+
+def ls_block_body(rng, ind, folded):
+    """Body lines of a block scalar at indentation ind: paragraphs of ordinary lines (short ones and ones longer than 80
+    columns), more-indented lines (2-6 extra spaces, most of them longer than 80 columns), blank lines in between.  The
+    first paragraph is an ordinary one (it fixes the indentation of the scalar)."""
+    lines = []
+    for p in range(rng.randint(1, 4)):
+        if p and rng.random() < 0.7:
+            lines.append("")
+        if p and rng.random() < (0.5 if folded else 0.3):
+            for _ in range(rng.randint(1, 2)):
+                lines.append(ind + " " * rng.choice([2, 4, 4, 6]) + ls_line(rng, 60, 170))
+        else:
+            for _ in range(rng.randint(1, 3)):
+                lines.append(ind + ls_line(rng, 10, 150))
+    return lines
+
+
+def ls_scalar(rng, ind, prefix, style, st):
+    """YAML lines of one long scalar / flow collection written after `prefix` ("key: " or "- ")."""
+    anchor = ""
+    if style in ("plain", "sq", "dq", "lit", "fold") and rng.random() < 0.15:
+        name = "L%d" % len(st["anchors"])
+        st["anchors"].append(name)
+        anchor = "&%s " % name
+    if style == "plain":
+        return [ind + prefix + anchor + ls_line(rng, 85, 220)]
+    if style == "sq":
+        return [ind + prefix + anchor + "'" + ls_line(rng, 85, 220).replace("'", "''") + "'"]
+    if style == "dq":
+        body = ls_line(rng, 85, 220).replace("\\", "\\\\").replace('"', '\\"')
+        if rng.random() < 0.5:
+            body = body.replace(" the ", "\\tthe ", 1).replace(" and ", ' \\"and\\" ', 1)
+        return [ind + prefix + anchor + '"' + body + '"']
+    if style in ("lit", "fold"):
+        head = ("|" if style == "lit" else ">") + rng.choice(["", "", "-", "+"])
+        return [ind + prefix + anchor + head] + ls_block_body(rng, ind + "  ", style == "fold")
+    if style == "flowseq":
+        return [ind + prefix + "[" + ", ".join(rng.choice(LS_FLOW_WORDS) for _ in range(rng.randint(12, 30))) + "]"]
+    if style == "flowmap":
+        return [ind + prefix + "{" + ", ".join("k%d: %s" % (i, rng.choice(LS_FLOW_WORDS)) for i in range(rng.randint(8, 20))) + "}"]
+    raise ValueError(style)
+
+
+def gen_long_text(rng):
+    """YAML text of a document holding long scalars in every style next to short scalars (the set targets)."""
+    st = {"anchors": []}
+    lines = ["---"]
+    nshort = [0]
+
+    def short(ind, prefix=None):
+        nshort[0] += 1
+        lines.append(ind + (prefix if prefix is not None else "s%d: " % nshort[0]) + rng.choice(["1", "2", "a", "b", "nobody", "true", "30", "x y"]))
+
+    def entries(ind, depth):
+        for _ in range(rng.randint(2, 5)):
+            r = rng.random()
+            if r < 0.3:
+                short(ind)
+                continue
+            style = rng.choice(LS_STYLES)
+            key = "%s%d" % (style[:2], len(lines))
+            if style == "longkey":
+                lines.append(ind + ls_line(rng, 85, 200).replace("'", "") + ": " + rng.choice(["1", "v", ls_line(rng, 85, 120)]))
+            elif style == "blockseq":
+                lines.append(ind + key + ":")
+                for _ in range(rng.randint(1, 3)):
+                    if rng.random() < 0.3:
+                        short(ind + "  ", "- ")
+                    else:
+                        lines.extend(ls_scalar(rng, ind + "  ", "- ", rng.choice(["plain", "sq", "dq", "lit", "fold", "fold"]), st))
+            elif depth > 0 and r > 0.85:
+                lines.append(ind + "m%d:" % len(lines))
+                entries(ind + "  ", depth - 1)
+            else:
+                lines.extend(ls_scalar(rng, ind, key + ": ", style, st))
+        if st["anchors"] and rng.random() < 0.3:
+            lines.append(ind + "al%d: *%s" % (len(lines), rng.choice(st["anchors"])))
+    entries("", 2)
+    short("")
+    return "\n".join(lines) + "\n"
+
+
+SIMPLE_PATH = None
+
+
+def tx_simple(path):
+    global SIMPLE_PATH
+    if SIMPLE_PATH is None:
+        import re
+        SIMPLE_PATH = re.compile(r"^[A-Za-z0-9_]+(\.[A-Za-z0-9_]+|\[[0-9]+\])*$")
+    return bool(path) and bool(SIMPLE_PATH.match(path))
+
+
+def gen_long_cases(rng, ndocs):
+    cases = []
+    for _ in range(ndocs):
+        text = gen_long_text(rng)
+        doc = mk_load(text)
+        if doc is None:
+            continue
+        try:
+            table = mk_phys(doc)
+        except codec.OutOfModel:
+            continue
+        paths = mk_paths(table)
+        # targets: the SHORT scalars (the long ones are the bystanders this part is about)
+        slots = [(ci, fld, pi) for ci, fld, pi, val in mk_slots(table) if val[1]["k"] != "null" and len(str(val[1].get("v", ""))) <= 8]
+        for ci, fld, pi in rng.sample(slots, min(3, len(slots))):
+            path = mk_slot_path(table, paths, ci, fld, pi)
+            if path is None or not tx_simple(path):
+                continue
+            v = rng.choice(LS_VALUES)
+            cases.append({"textdoc": "long", "text": text, "path": path, "slot": [ci, fld, pi], "v": [v[0], v[1]], "fmt": "DEFAULT"})
+    return cases
+
+
+# ---- dates and timestamps
+
+def dt_den(n):
+    """What a date / timestamp node denotes, independent of its Python representation: 'D:yyyy-mm-dd' for a date (a
+    datetime.date that is no datetime, or yamlpath's AnchoredDate), 'T:<local ISO time><UTC offset in minutes or nothing>'
+    for a timestamp (aware datetime objects carry the offset in tzinfo; loaded nodes hold UTC and keep the offset in
+    their private _yaml record)."""
+    import datetime as dtm
+    if type(n).__name__ == "AnchoredDate" or not isinstance(n, dtm.datetime):
+        return "D:%04d-%02d-%02d" % (n.year, n.month, n.day)
+    y = getattr(n, "_yaml", None) or {}
+    loc = dtm.datetime(n.year, n.month, n.day, n.hour, n.minute, n.second, n.microsecond)
+    if n.tzinfo is not None:
+        off = n.utcoffset()
+    elif y.get("tz"):
+        off = y.get("delta") or dtm.timedelta(0)
+        loc = loc + off
+    else:
+        off = None
+    return "T:%s%s" % (loc.isoformat(), "" if off is None else "%+d" % (off.total_seconds() // 60))
+
+
+def dt_scalar(n):
+    import datetime as dtm
+    if isinstance(n, dtm.date):
+        return {"k": "date" if dt_den(n)[0] == "D" else "timestamp", "v": dt_den(n)}
+    return codec.scalar_to_json(n)
+
+
+DT_TZ = ["", "", "Z", "+02:00", "-05:00", "+05:30", "-08:00", "+01"]
+
+
+def gen_date_lit(rng):
+    return "%04d-%02d-%02d" % (rng.choice([1999, 2001, 2019, 2022, 2024]), rng.randint(1, 12), rng.randint(1, 28))
+
+
+def gen_ts_lit(rng):
+    frac = rng.choice(["", "", ".5", ".10", ".250000", ".123456"])
+    return "%s%s%02d:%02d:%02d%s%s" % (gen_date_lit(rng), rng.choice(["T", "t", " "]), rng.randint(0, 23), rng.randint(0, 59),
+                                       rng.randint(0, 59), frac, rng.choice(DT_TZ))
+
+
+def dt_parse(text):
+    """Independent reading of YAML 1.1 date / timestamp text -> denotation (or None when it is neither)."""
+    import re
+    import datetime as dtm
+    m = re.match(r"^(\d{4})-(\d\d)-(\d\d)$", text)
+    if m:
+        try:
+            dtm.date(*[int(x) for x in m.groups()])
+        except ValueError:
+            return None
+        return "D:%s-%s-%s" % m.groups()
+    m = re.match(r"^(\d{4})-(\d\d)-(\d\d)(?:[Tt]|[ \t]+)(\d\d):(\d\d):(\d\d)(?:\.(\d+))?(?:[ \t]*(Z|[-+]\d\d?(?::\d\d)?))?$", text)
+    if not m:
+        return None
+    y, mo, d, h, mi, s, fr, tz = m.groups()
+    us = int((fr or "0").ljust(6, "0")[:6])
+    try:
+        loc = dtm.datetime(int(y), int(mo), int(d), int(h), int(mi), int(s), us)
+    except ValueError:
+        return None
+    off = ""
+    if tz == "Z":
+        off = "+0"
+    elif tz:
+        hh, _, mm = tz[1:].partition(":")
+        off = "%+d" % ((-1 if tz[0] == "-" else 1) * (int(hh) * 60 + int(mm or 0)))
+    return "T:%s%s" % (loc.isoformat(), off)
+
+
+def gen_date_text(rng):
+    """YAML text with date and timestamp nodes (plain, anchored, aliased under keys and in lists, nested) next to strings
+    and ints."""
+    lines = ["---"]
+    anchors = []
+    cnt = [0]
+
+    def scalar(allow_anchor=True):
+        r = rng.random()
+        if anchors and r < 0.2:
+            return "*" + rng.choice(anchors)
+        k = rng.random()
+        v = gen_date_lit(rng) if k < 0.35 else gen_ts_lit(rng) if k < 0.75 else rng.choice(["widget", "1", "30", "x y", "true", "'2001-01-01'"])
+        if allow_anchor and r > 0.7:
+            name = "t%d" % len(anchors)
+            anchors.append(name)
+            return "&%s %s" % (name, v)
+        return v
+
+    def key():
+        cnt[0] += 1
+        return "k%d" % cnt[0]
+    for _ in range(rng.randint(2, 5)):
+        r = rng.random()
+        if r < 0.6:
+            lines.append("%s: %s" % (key(), scalar()))
+        elif r < 0.8:
+            lines.append("%s:" % key())
+            for _ in range(rng.randint(1, 3)):
+                lines.append("  %s: %s" % (key(), scalar()))
+        elif r < 0.9:
+            lines.append("%s: [%s]" % (key(), ", ".join(scalar(False) for _ in range(rng.randint(1, 3)))))
+        else:
+            lines.append("%s:" % key())
+            for _ in range(rng.randint(1, 3)):
+                lines.append("  - %s" % scalar())
+    return "\n".join(lines) + "\n"
+
+
+DT_FORMATS = ["DEFAULT", "DEFAULT", "DEFAULT", "DATE", "TIMESTAMP"]
+
+
+def gen_date_cases(rng, ndocs):
+    import re
+    import datetime as dtm
+    cases = []
+    for _ in range(ndocs):
+        text = gen_date_text(rng)
+        doc = mk_load(text)
+        if doc is None:
+            continue
+        try:
+            table = mk_phys(doc, scalar=dt_scalar)
+        except codec.OutOfModel:
+            continue
+        paths = mk_paths(table)
+        slots = [(ci, fld, pi, val) for ci, fld, pi, val in mk_slots(table)]
+        dated = [sl for sl in slots if sl[3][1]["k"] in ("date", "timestamp")]
+        # copies of nodes as values: dates and timestamps without a UTC offset (a loaded timestamp WITH an offset keeps it in
+        # a private record that no public accessor copies; not judged here)
+        copyable = [sl for sl in dated if sl[3][1]["k"] == "date" or not re.search(r":\d\d(\.\d+)?[-+]\d+$", sl[3][1]["v"])]
+        anchored = [sl for sl in dated if sl[3][2]]
+        picks = rng.sample(anchored, min(2, len(anchored))) + rng.sample(dated, min(2, len(dated))) + rng.sample(slots, min(2, len(slots)))
+        for ci, fld, pi, _ in picks:
+            path = mk_slot_path(table, paths, ci, fld, pi)
+            if path is None:
+                continue
+            r = rng.random()
+            if r < 0.25:
+                v = ["date", gen_date_lit(rng)]
+            elif r < 0.45:
+                tz = rng.choice([None, None, 120, -300, 330, 0])
+                us = rng.choice([0, 0, 500000, 123456])
+                d = dtm.datetime(rng.choice([2001, 2022]), rng.randint(1, 12), rng.randint(1, 28), rng.randint(0, 23), rng.randint(0, 59), rng.randint(0, 59), us)
+                v = ["datetime", d.isoformat(), tz]
+            elif r < 0.6 and copyable:
+                c = rng.choice(copyable)
+                v = ["node", [c[0], c[1], c[2]]]
+            elif r < 0.75:
+                v = ["text", gen_date_lit(rng)]
+            elif r < 0.92:
+                v = ["text", gen_ts_lit(rng)]
+            else:
+                v = ["text", rng.choice(["abc", "5", "2022-13-45", "x y"])]
+            cases.append({"textdoc": "date", "text": text, "path": path, "slot": [ci, fld, pi], "v": v, "fmt": rng.choice(DT_FORMATS)})
+    return cases
+
+
+def dt_value(case, text):
+    """(the Python value handed to set_value, the denotation the targets must hold afterwards or None when this
+    value x format mix is not judged, what to call it)."""
+    import datetime as dtm
+    v, fmt = case["v"], case["fmt"]
+    if v[0] == "date":
+        y, m, d = [int(x) for x in v[1].split("-")]
+        return dtm.date(y, m, d), ({"k": "date", "v": "D:" + v[1]} if fmt in ("DEFAULT", "DATE") else None), "datetime.date(%s)" % v[1]
+    if v[0] == "datetime":
+        d = dtm.datetime.fromisoformat(v[1])
+        den = "T:" + d.isoformat()
+        if v[2] is not None:
+            d = d.replace(tzinfo=dtm.timezone(dtm.timedelta(minutes=v[2])))
+            den += "%+d" % v[2]
+        return d, ({"k": "timestamp", "v": den} if fmt in ("DEFAULT", "TIMESTAMP") else None), repr(d)
+    if v[0] == "node":
+        node = tx_node(mk_load(text), v[1])      # the same text loaded a second time: a node of ANOTHER document
+        enc = dt_scalar(node)
+        ok = (enc["k"] == "date" and fmt in ("DEFAULT", "DATE")) or (enc["k"] == "timestamp" and fmt in ("DEFAULT", "TIMESTAMP"))
+        return node, (enc if ok else None), "a copy of the node %s" % enc["v"]
+    if v[0] == "text":
+        den = dt_parse(v[1])
+        if fmt == "DEFAULT":
+            want = codec.scalar_to_json(tx_typed(v[1]))
+        elif den and ((fmt == "DATE") == (den[0] == "D")):
+            want = {"k": "date" if den[0] == "D" else "timestamp", "v": den}
+        else:
+            want = None
+        return v[1], want, repr(v[1])
+    raise ValueError(v[0])
+
+
+def tx_typed(text):
+    """DEFAULT format of plain text: ints / bools stay what the value tables of part (1) say; the texts used here are
+    either not typed (date-like text, words) or a small int."""
+    try:
+        return int(text) if text.strip() == text and not text.startswith("0") else text
+    except ValueError:
+        return text
+
+
+def tx_node(root, slot):
+    """The node object at slot (container number in first-visit order, field, position)."""
+    from ruamel.yaml.comments import CommentedMap, CommentedSeq
+    seen, order = set(), []
+
+    def visit(n):
+        if isinstance(n, (CommentedMap, CommentedSeq)) and id(n) not in seen:
+            seen.add(id(n))
+            order.append(n)
+            if isinstance(n, CommentedMap):
+                for m in getattr(n, "merge", []):
+                    visit(m[1])
+                for _k, v in n.non_merged_items():
+                    visit(v)
+            else:
+                for v in n:
+                    visit(v)
+    visit(root)
+    c = order[slot[0]]
+    if slot[1] == "own":
+        return list(c.non_merged_items())[slot[2]][1]
+    return c[slot[2]]
+
+
+TX_STYLE = {"FoldedScalarString": "folded", "LiteralScalarString": "literal", "DoubleQuotedScalarString": "double-quoted",
+            "SingleQuotedScalarString": "single-quoted", "PlainScalarString": "plain", "str": "plain", "AnchoredDate": "date",
+            "AnchoredTimeStamp": "timestamp"}
+
+
+def tx_first_diff(a, b, styles):
+    """First scalar slot whose content differs between two physical tables of the same shape -> (style, text)."""
+    if len(a) != len(b):
+        return "shape", "%d containers, reloaded %d" % (len(a), len(b))
+    for ci, (x, y) in enumerate(zip(a, b)):
+        if x == y:
+            continue
+        if x["t"] != y["t"]:
+            return "shape", "container #%d" % ci
+        fld = "own" if x["t"] == "map" else "items"
+        if x["t"] == "map" and [k for k, _ in x["own"]] != [k for k, _ in y["own"]]:
+            return "keys", "mapping #%d: keys %s, reloaded %s" % (ci, [k for k, _ in x["own"]][:6], [k for k, _ in y["own"]][:6])
+        if len(x[fld]) != len(y[fld]):
+            return "shape", "container #%d" % ci
+        for pi, (e, f) in enumerate(zip(x[fld], y[fld])):
+            ev, fv = (e[1], f[1]) if fld == "own" else (e, f)
+            if ev != fv:
+                style = TX_STYLE.get(styles.get((ci, fld, pi), ""), "scalar")
+                where = "key %r of mapping #%d" % (e[0], ci) if fld == "own" else "item %d of sequence #%d" % (pi, ci)
+                return style, "%s (%s): in memory %s, reloaded %s" % (where, style, json.dumps(ev)[:300], json.dumps(fv)[:300])
+    return "other", ""
+
+
+def tx_roundtrip(data, scalar):
+    """Dump with the tool's editor, reload with its strict loader, compare the physical documents (anchor names aside).
+    -> (status, style of the first differing node, detail, dumped text)"""
+    import io
+    from yamlpath.common import Parsers
+    buf = io.StringIO()
+    try:
+        Parsers.get_yaml_editor().dump(data, buf)
+    except Exception as e:  # noqa
+        return "dump-failed", "", type(e).__name__, ""
+    try:
+        back = mk_load(buf.getvalue())
+    except Exception as e:  # noqa
+        return "reload-crashed", "", type(e).__name__, buf.getvalue()
+    if back is None:
+        return "reload-failed", "", "", buf.getvalue()
+    styles = {}
+    mem = mk_phys(data, anchors=False, scalar=scalar, styles_out=styles)
+    rel = mk_phys(back, anchors=False, scalar=scalar)
+    if mem == rel:
+        return "ok", "", "", buf.getvalue()
+    style, detail = tx_first_diff(mem, rel, styles)
+    return "data-differs", style, detail, buf.getvalue()
+
+
+def text_case(case, bump, viol, keys):
+    from yamlpath import Processor
+    from yamlpath.enums import YAMLValueFormats
+    kind, text, path, fmt = case["textdoc"], case["text"], case["path"], case.get("fmt", "DEFAULT")
+    tag = kind + "-doc"
+    scalar = dt_scalar if kind == "date" else None
+    doc = mk_load(text)
+    if doc is None:
+        bump(tag + ":skipped-does-not-load")
+        return
+    before = mk_phys(doc, scalar=scalar)
+    ci, fld, pi = case["slot"]
+    try:
+        c = before[ci]
+        node = c["own"][pi][1] if fld == "own" else c["items"][pi]
+        assert node[0] == "s"
+    except Exception:
+        bump(tag + ":skipped-slot-not-a-scalar")
+        return
+    if kind == "date":
+        v, want, vtext = dt_value(case, text)
+    else:
+        v, want, vtext = case["v"][1], codec.scalar_to_json(case["v"][1]), repr(case["v"][1])
+    targets = [(ci, fld, pi)]
+    if node[2]:
+        targets += [(c2, f2, p2) for c2, f2, p2, val in mk_slots(before) if val[2] == node[2] and (c2, f2, p2) != (ci, fld, pi)]
+    proc = Processor(core.quiet_logger(), doc)
+    res = ed.guarded(lambda: proc.set_value(path, v, mustexist=True, value_format=YAMLValueFormats[fmt]))
+    rep = dict(case)
+    what = "set_value(%s, %s, %s) on a document loaded from YAML text" % (path, vtext, fmt)
+    bump(tag + ":impl:" + res[0].split(":")[0])
+    bump(tag + ":targets:%d" % min(len(targets), 4))
+    if kind == "date":
+        bump("date-doc:%s-node<-%s:%s:%s" % (node[1]["k"] if node[1]["k"] in ("date", "timestamp") else "other", case["v"][0], fmt,
+                                             "judged" if want is not None else "not-judged"))
+    if res[0] == "timeout":
+        viol.append(("timeout", what + " did not finish", rep))
+        return
+    if res[0].startswith("crash"):
+        viol.append(("%s:%s@%s" % (tag, res[0], res[1]), what + " raised %s (%s)" % (res[0], res[1]), rep))
+        return
+    if res[0] != "ok":
+        if want is not None:
+            viol.append((tag + ":set-refused", what + ": refused with a YAML Path error (%s); the value is a legitimate %s\n%s" % (
+                str(res[2])[:160], want["k"], text), rep))
+        return
+    after = mk_phys(proc.data, scalar=scalar)
+    mb, ma = mk_masked(before, targets), mk_masked(after, targets)
+    if mb != ma:
+        sig, detail = mk_describe(mb, ma)
+        viol.append((sig.replace("merge-doc", tag), what + ": the rest of the document is not as before (%s)\n%s" % (detail, text), rep))
+        return
+    for (c2, f2, p2) in targets:
+        got = after[c2]["own"][p2][1] if f2 == "own" else after[c2]["items"][p2]
+        old = before[c2]["own"][p2][1] if f2 == "own" else before[c2]["items"][p2]
+        if want is not None and (got[0] != "s" or got[1] != want):
+            viol.append((tag + ":target-not-updated" + (":%s-became-%s" % (want["k"], got[1].get("k")) if kind == "date" and got[0] == "s" and
+                                                        got[1].get("k") != want["k"] else ""),
+                         what + ": %s of container #%d holds %s, expected %s\n%s" % (f2, c2, got, want, text), rep))
+            return
+        if got[2] != old[2]:
+            viol.append((tag + ":target-anchor-changed", what + ": anchor %s -> %s\n%s" % (old[2], got[2], text), rep))
+            return
+    keys.append(_key({"doc": text, "path": path, "v": case["v"], "fmt": fmt}))
+    status, style, detail, dumped = tx_roundtrip(proc.data, scalar)
+    bump(tag + ":reload:" + status)
+    if status == "data-differs":
+        viol.append(("%s:reload:untouched-%s-differs" % (tag, style) if style not in ("shape", "keys", "other") else "%s:reload:data-differs:%s" % (tag, style),
+                     what + ": the edited document does not dump + strict-reload to the same data: %s\n--- dumped\n%s" % (detail, dumped[:1500]), rep))
+    elif status != "ok":
+        viol.append(("%s:reload:%s" % (tag, status), what + ": the edited document does not dump / reload with yamlpath's own editor and "
+                     "strict loader (%s)\n%s" % (detail, dumped[:1500]), rep))
 
 
 # --------------------------------------------------------------------------- floats of every magnitude (real code only)
@@ -719,6 +1248,13 @@ def _job(cases):
             stats["n"] += 1
             try:
                 merge_case(case, bump, viol, keys)
+            except codec.OutOfModel:
+                stats["oom"] += 1
+            continue
+        if case.get("textdoc"):
+            stats["n"] += 1
+            try:
+                text_case(case, bump, viol, keys)
             except codec.OutOfModel:
                 stats["oom"] += 1
             continue
